@@ -155,10 +155,42 @@ Fixpoint dup_from (cp : list (addr * addr)) (steps : list tstep_obs) : bool :=
       ok && dup_from (new ++ cp') r
   end.
 
+(* "copied to each other ... until either side closes": when one side of a bound pair closes, the server closes the other
+   side (and the connection is gone: a later Connect to that peer is a new connection). Bookkeeping from the observations
+   alone: c_la = announced (connection id, client), c_lb = ids bound and not yet ended (ended by a close of either side or by
+   the end of an allocation the id was announced to) *)
+Definition c_anns (e : tevent) (acts : list taction) : list (N * addr) :=
+  flat_map (fun a => match a, e with
+     | TSuccess _ MConnect _ (Some k), TConnect c _ _ _ _ _ _ => [(k, c)]
+     | TAttempt c _ k, _ => [(k, c)]
+     | _, _ => [] end) acts.
+Definition c_binds (acts : list taction) : list N := flat_map (fun a => match a with TBindSuccess _ _ k => [k] | _ => [] end) acts.
+Definition closes_other (cs : bool) (acts : list taction) : bool :=
+  existsb (fun a => match a with TPeerClosed _ _ => cs | TDataClosed _ => negb cs | _ => false end) acts.
+Record cst := { c_la : list (N * addr); c_lb : list N }.
+Definition c_step (st : cst) (e : tevent) (acts : list taction) : bool * cst :=
+  let la' := c_anns e acts ++ c_la st in
+  match e with
+  | TCloseSide k cs =>
+      ((if existsb (N.eqb k) (c_lb st) then closes_other cs acts else true),
+       {| c_la := la'; c_lb := filter (fun x => negb (x =? k)%N) (c_lb st) |})
+  | TEnd c =>
+      (true, {| c_la := la';
+                c_lb := filter (fun k => negb (existsb (fun p => (fst p =? k)%N && addr_eqb (snd p) c) (c_la st))) (c_lb st) |})
+  | _ => (true, {| c_la := la'; c_lb := c_binds acts ++ c_lb st |})
+  end.
+Fixpoint close_from (st : cst) (steps : list tstep_obs) : bool :=
+  match steps with
+  | [] => true
+  | o :: r => fst (c_step st (ts_ev o) (ts_acts o)) && close_from (snd (c_step st (ts_ev o) (ts_acts o))) r
+  end.
+Definition c0 : cst := {| c_la := []; c_lb := [] |}.
+
 Definition run (c : case) : verdict :=
   (agree_from tinit (tc_steps c),
    dup_from [] (tc_steps c) &&
-   holds_from {| k_now := 0; k_users := []; k_perms := []; k_ann := []; k_bound := []; k_gone := []; k_relays := []; k_open := [] |} (tc_steps c)).
+   holds_from {| k_now := 0; k_users := []; k_perms := []; k_ann := []; k_bound := []; k_gone := []; k_relays := []; k_open := [] |} (tc_steps c) &&
+   close_from c0 (tc_steps c)).
 Definition bad_cases (base : N) (cs : list case) := bad_from run base cs.
 
 Fixpoint diag_from (s : tstate) (i : N) (steps : list tstep_obs) : option (N * tevent * list taction * list taction) :=
